@@ -368,9 +368,12 @@ def gen(rng, tier):
     sec = [b"hunter2", b"other-secret"]
     # the model's cost grows faster than quadratically with the line length (0.2 s at 4 KiB, 22 s at 32 KiB, 150 s at
     # 64 KiB), so the quick tier stops at 16 KiB and the thorough tier adds a few 32 KiB and 64 KiB lines
-    plan = [(4096, [0, 3, 5, 8], [0, 5], True), (16384, [3, 5], [5], False)]
+    plan = [(4096, [0, 3, 5, 8], [0, 5], True), (16384, [3, 5], [5], False),
+            # above 40 000 bytes the model is not run (see Corr/C13.v): specification oracle only
+            (65536, [0, 3, 5, 8], [0, 5], True), (131072, [5], [5], False)]
     if thorough:
-        plan += [(8192, [0, 1, 3, 5, 7, 9], [0, 1, 2, 5], True), (32768, [3, 5], [5], False), (65536, [3, 5], [5], False)]
+        plan += [(8192, [0, 1, 3, 5, 7, 9], [0, 1, 2, 5], True), (32768, [3, 5], [5], False),
+                 (65536, [1, 2, 4, 6, 7, 9], [1, 2], True), (262144, [3, 5], [5], False)]
     for L, backs, fwds, split in plan:
         for back in backs:
             for fwd in fwds:
